@@ -7,6 +7,7 @@ import DG.Segment
 import DG.Reload
 import DG.JsrProto
 import DG.ModInfoProto
+import DG.TextPos
 /-! Line-protocol driver: one request per line on stdin, one answer per line on stdout. -/
 open DG DG.Sexp
 
@@ -195,6 +196,37 @@ def handle (st : DState) (req : Sexp) : DState × String :=
       let r := DG.MI.commentRange { line := line, char := col } lo hi q
       (st, s!"{r.s.line}:{r.s.char}-{r.e.line}:{r.e.char}")
     | _, _, _, _, _ => (st, "bad-op")
+  | .list [.atom "posof", .list (.atom "t" :: cps), off] =>
+    match nats? cps, nat? off with
+    | some cps, some off =>
+      let p := DG.TP.posOf (cps.map Char.ofNat) off
+      (st, s!"{p.line}:{p.char}")
+    | _, _ => (st, "bad-op")
+  | .list [.atom "cspan", .list (.atom "t" :: cps), start, lo, hi, q] =>
+    match nats? cps, nat? start, nat? lo, nat? hi, bool? q with
+    | some cps, some start, some lo, some hi, some q =>
+      let text := cps.map Char.ofNat
+      let r := DG.TP.commentSpan text start lo hi q
+      (st, s!"{r.s.line}:{r.s.char}-{r.e.line}:{r.e.char} " ++ joinSp ((DG.TP.slice text r).map fun c => toString c.toNat))
+    | _, _, _, _, _ => (st, "bad-op")
+  | .list [.atom "includes", sl, sc, el, ec, pl, pc] =>
+    match nats? [sl, sc, el, ec, pl, pc] with
+    | some [sl, sc, el, ec, pl, pc] =>
+      (st, if DG.TP.includes ⟨⟨sl, sc⟩, ⟨el, ec⟩⟩ ⟨pl, pc⟩ then "1" else "0")
+    | _ => (st, "bad-op")
+  | .list [.atom "depincludes", .list (.atom "ranges" :: rs), ty, pl, pc] =>
+    let range? : Sexp → Option DG.MI.Range := fun
+      | .list [a, b, c, d] => do pure ⟨⟨← nat? a, ← nat? b⟩, ⟨← nat? c, ← nat? d⟩⟩
+      | _ => none
+    let ty? : Option (Option DG.MI.Range) := match ty with
+      | .atom "-" => some none
+      | x => (range? x).map some
+    match rs.mapM range?, ty?, nat? pl, nat? pc with
+    | some rs, some ty, some pl, some pc =>
+      (st, match DG.TP.depIncludes rs ty ⟨pl, pc⟩ with
+        | some r => s!"{r.s.line}:{r.s.char}-{r.e.line}:{r.e.char}"
+        | none => "none")
+    | _, _, _, _ => (st, "bad-op")
   | .list [.atom "valid"] =>
     (st, match st.graph.valid with | some e => e.show | none => "ok")
   | _ => (st, "bad-op")
